@@ -2,6 +2,10 @@ import MidnightZK.Model.C03.Binding
 import MidnightZK.Proofs.C03.Stream
 import MidnightZK.Proofs.C03.Points
 import MidnightZK.Proofs.C03.InstanceEval
+import MidnightZK.Proofs.C03.NoOrder2
+import MidnightZK.Proofs.C03.InstanceEvalLink
+import MidnightZK.Model.C03.Batch
+import MidnightZK.Model.C03.VKView
 /-!
 # C03 — a proof is accepted only for the exact statement and bytes it was made for
 Structural binding facts of the verifier schedule; collision resistance of the transcript hash
@@ -533,5 +537,324 @@ theorem poseidon_and_limb_constants :
     Gen.emLog2Base = 56 ∧ Gen.emNbLimbs = 7 ∧ Gen.fpModulus < limbBase ^ Gen.emNbLimbs ∧
     2 * limbBase < Gen.fqModulus ∧ rModulus = Gen.fqModulus ∧ C16.fpP = Gen.fpModulus ∧ C16.fqR = Gen.fqModulus := by
   decide
+
+/-! ## (6) Points with `y = 0`: the side condition of the first round is discharged -/
+
+/-- **The decoder never yields a point with `y = 0`.** `G1Affine::from_compressed` checks `is_torsion_free`
+(`[r]P = O`); on a candidate `(x, 0)` the double-and-add of the model returns `(x, 0, 1) ≠ O` because every doubling
+gives `Z₃ = 2YZ = 0` and the last bit of the odd modulus `r` adds `(x, 0)` back. So every point read from a proof (or
+accepted as a committed-instance commitment through the same decoder) satisfies `NoOrder2`, without any fact about
+the curve's group order. -/
+theorem decoded_point_no_order2 (bs : List Nat) (p : Pt) (h : g1Dec bs = some p) : NoOrder2 p :=
+  g1Dec_noOrder2 h
+
+/-- Values a successful parse returns are `ValOk NoOrder2`. -/
+private theorem parseElemsWith_ok (tys : List Ty) : ∀ (bs : List Nat) (vs : List Val) (r : List Nat),
+    parseElemsWith g1Dec tys bs = some (vs, r) → ∀ v ∈ vs, ValOk NoOrder2 v := by
+  induction tys with
+  | nil =>
+    intro bs vs r h
+    simp only [parseElemsWith, Option.some.injEq, Prod.mk.injEq] at h
+    intro v hv; rw [← h.1] at hv; simp at hv
+  | cons ty t ih =>
+    intro bs vs r h
+    unfold parseElemsWith at h
+    by_cases la : bs.length < elemSize ty
+    · simp [la] at h
+    simp only [la, if_false] at h
+    split at h
+    · simp at h
+    · next v hv =>
+      simp only [Option.map_eq_some_iff, Prod.mk.injEq] at h
+      obtain ⟨⟨vs', r'⟩, hp, h1, _⟩ := h
+      simp only at h1
+      subst h1
+      intro w hw
+      rcases List.mem_cons.mp hw with rfl | hw'
+      · cases ty with
+        | F =>
+          simp only [decodeElemWith, Option.map_eq_some_iff] at hv
+          obtain ⟨x, _, rfl⟩ := hv
+          trivial
+        | G =>
+          simp only [decodeElemWith, Option.map_eq_some_iff] at hv
+          obtain ⟨q, hq, rfl⟩ := hv
+          exact g1Dec_noOrder2 hq
+      · exact ih _ vs' r' hp w hw'
+
+/-- **`proof_parse_injective` for the real decoder, at full strength** (no side condition left): two byte strings
+that the verifier parses successfully into the same element sequence are the same byte string. Supersedes
+`proof_parse_injective_g1_partial`. -/
+theorem proof_parse_injective_g1 (sh : Shape) (cfg : Cfg) (a b : List Nat) (vs : List Val)
+    (ha : parseProof (verifierSchedule sh cfg) a = some vs)
+    (hb : parseProof (verifierSchedule sh cfg) b = some vs) : a = b := by
+  refine proof_parse_injective_g1_partial sh cfg a b vs ?_ ha hb
+  unfold parseProof parseProofWith at ha
+  split at ha
+  · next v hp =>
+    simp only [Option.some.injEq] at ha
+    subst ha
+    exact parseElemsWith_ok _ _ _ _ hp
+  · simp at ha
+
+/-- `parsed_reencodes` without the side condition. -/
+theorem parsed_reencodes_g1 (tys : List Ty) (bs : List Nat) (vs : List Val) (r : List Nat)
+    (h : parseElemsWith g1Dec tys bs = some (vs, r)) : bs = encodeElems vs ++ r :=
+  parsed_reencodes tys bs vs r (parseElemsWith_ok tys bs vs r h) h
+
+/-! ## (7) Every entry point checks that the proof is exhausted -/
+
+/-- **Where `assert_empty` is applied (generated from the sources).** Every function of `zk_stdlib/src/lib.rs` and
+`zk_stdlib/src/utils/plonk_api.rs` that calls `prepare` — today `batch_verify` and `BlstPLONK::verify` (behind
+`zk_stdlib::verify`) — calls `assert_empty` on the very transcript that was initialised from the proof bytes and
+handed to `prepare`, after `prepare`, unconditionally (same block), with the error propagated; `assert_empty` still
+compares buffer length and cursor, and `CircuitTranscript::init()` still starts from an empty buffer (so the check
+applied to the auxiliary transcript of `batch_verify` would be vacuous — seed C03-4). Variable names are not fixed by
+this statement, only the roles. -/
+theorem entry_points_enforce_exhaustion :
+    Gen.prepareCallers.map (fun c => (c.1, c.2.1))
+      = [("zk_stdlib/src/lib.rs", "batch_verify"), ("zk_stdlib/src/utils/plonk_api.rs", "verify")] ∧
+    (∀ c ∈ Gen.prepareCallers, enforcesExhaustion c.1 c.2.1 = true) ∧
+    (∀ s ∈ Gen.assertSites, siteChecksRest s = true) ∧
+    (∀ s ∈ Gen.assertSites, s.fn = "batch_verify" → s.receiver ≠ Gen.batchAuxTranscript) ∧
+    Gen.initBufferEmpty = true ∧ Gen.assertEmptyComparesLenPos = true := by
+  decide
+
+/-- The per-member statements of `batch_verify`, by role: the transcript that is initialised from the member's proof
+is the one `prepare` reads, the one the summary is squeezed from and the one `assert_empty` is applied to; the
+summary goes into the other (auxiliary) transcript; `assert_empty` comes after `prepare`. -/
+theorem batch_member_ops_roles :
+    ∃ t pr : String, Gen.batchMemberOps = ["check_nb_public_inputs", "init_from_bytes:" ++ t ++ ":" ++ pr,
+        "prepare:" ++ t, "squeeze_summary:" ++ t, "common_summary:" ++ Gen.batchAuxTranscript, "assert_empty:" ++ t,
+        "ok_guard"] ∧ t ≠ Gen.batchAuxTranscript :=
+  ⟨"transcript", "proof", by decide, by decide⟩
+
+private theorem parseMember_true {dec : List Nat → Option Pt} (evs : List Ev) (bs : List Nat) :
+    parseMember dec true evs bs = parseProofWith dec evs bs := by
+  unfold parseMember parseProofWith
+  split
+  · next h => rw [h]
+  · next vs rest h =>
+    rw [h]
+    cases rest with
+    | nil => simp
+    | cons x t => simp
+
+/-- **`batch_accepted_length`.** If `zk_stdlib::batch_verify` gets past the parsing of all members, then EVERY
+member's byte string is parsed exactly as the single verifier parses it — every element decodes and no byte is left
+(`assert_empty` on the member's own transcript) — hence has exactly the length its key's schedule prescribes. The
+exhaustion check is taken from the generated site list: if the receiver of `assert_empty` in `batch_verify` stops
+being the proof transcript (seed C03-4), this theorem no longer compiles. -/
+theorem batch_accepted_length {dec : List Nat → Option Pt} :
+    ∀ (ms : List (List Ev × List Nat)) (vss : List (List Val)), batchParse dec ms = some vss →
+      vss.length = ms.length ∧
+      ∀ i (hi : i < ms.length), (∃ vs, vss[i]? = some vs ∧ parseProofWith dec (ms[i]).1 (ms[i]).2 = some vs) ∧
+        (ms[i]).2.length = totalLen (ms[i]).1 := by
+  have hex : enforcesExhaustion "zk_stdlib/src/lib.rs" "batch_verify" = true := by decide
+  intro ms
+  induction ms with
+  | nil =>
+    intro vss h
+    simp only [batchParse, Option.some.injEq] at h
+    subst h
+    exact ⟨rfl, fun i hi => absurd hi (by simp)⟩
+  | cons m t ih =>
+    intro vss h
+    obtain ⟨evs, bs⟩ := m
+    simp only [batchParse, hex, parseMember_true] at h
+    split at h
+    · simp at h
+    · next vs hvs =>
+      simp only [Option.map_eq_some_iff] at h
+      obtain ⟨rest, hrest, rfl⟩ := h
+      obtain ⟨hl, hall⟩ := ih rest hrest
+      refine ⟨by simp [hl], ?_⟩
+      intro i hi
+      cases i with
+      | zero =>
+        refine ⟨⟨vs, by simp, hvs⟩, ?_⟩
+        simp only [List.getElem_cons_zero]
+        unfold parseProofWith at hvs
+        split at hvs
+        · next v hp =>
+          have := (parseElemsWith_length _ _ _ _ hp).1
+          rw [sizes_totalLen] at this
+          simpa using this
+        · simp at hvs
+      | succ j =>
+        have hj : j < t.length := by simpa using hi
+        simpa using hall j hj
+
+/-- The single entry point (`BlstPLONK::verify`, behind `zk_stdlib::verify`) parses exactly like `parseProofWith`
+(elements, then `assert_empty`): `accepted_length` / `parsed_length` apply to it as they stand. -/
+theorem verify_parse_eq {dec : List Nat → Option Pt} (evs : List Ev) (bs : List Nat) :
+    verifyParse dec evs bs = parseProofWith dec evs bs := by
+  have hex : enforcesExhaustion "zk_stdlib/src/utils/plonk_api.rs" "verify" = true := by decide
+  unfold verifyParse
+  rw [hex, parseMember_true]
+
+/-- **The entry points agree at the parsing level**: a singleton batch is parsed exactly like a single verification,
+and a batch is accepted at the parsing level iff every member is (no member can hide trailing bytes behind another). -/
+theorem batch_parse_iff {dec : List Nat → Option Pt} (ms : List (List Ev × List Nat)) :
+    (batchParse dec ms).isSome = ms.all fun m => (verifyParse dec m.1 m.2).isSome := by
+  have hex : enforcesExhaustion "zk_stdlib/src/lib.rs" "batch_verify" = true := by decide
+  induction ms with
+  | nil => rfl
+  | cons m t ih =>
+    obtain ⟨evs, bs⟩ := m
+    simp only [batchParse, List.all_cons, verify_parse_eq, hex, parseMember_true]
+    cases h : parseProofWith dec evs bs with
+    | none => simp
+    | some vs =>
+      simp only [Option.isSome_some, Bool.true_and, Option.isSome_map]
+      rw [ih]
+      simp [verify_parse_eq]
+
+/-- The index the driver prints for a `batchparse` request is `none` exactly when `batchParse` succeeds (the two
+functions walk the members in the same order and stop at the same member). -/
+theorem batch_first_bad_none_iff {dec : List Nat → Option Pt} (ms : List (List Ev × List Nat)) (i : Nat) :
+    batchFirstBad dec ms i = none ↔ (batchParse dec ms).isSome = true := by
+  induction ms generalizing i with
+  | nil => simp [batchFirstBad, batchParse]
+  | cons m t ih =>
+    obtain ⟨evs, bs⟩ := m
+    simp only [batchFirstBad, batchParse]
+    cases parseMember dec (enforcesExhaustion "zk_stdlib/src/lib.rs" "batch_verify") evs bs with
+    | none => simp
+    | some vs => simp only [Option.isSome_map]; exact ih (i + 1)
+
+/-- Non-vacuity of the model of the WRONG receiver (what seed C03-4 does): without the exhaustion check a member
+followed by junk is accepted at the parsing level, with it the same bytes are rejected. -/
+example : (parseMember g1Dec false [elemF .randomEval] (encodeScalar 5 ++ [0])).isSome = true ∧
+    (parseMember g1Dec true [elemF .randomEval] (encodeScalar 5 ++ [0])).isSome = false ∧
+    (parseMember g1Dec true [elemF .randomEval] (encodeScalar 5)).isSome = true := by
+  decide +kernel
+
+/-! ## (8) The executable instance evaluation IS the field-level one -/
+
+/-- **`C02.instanceEvals` computes `instEval` (mod `p`).** The natural-number function that C02 runs against the
+real `verifier.rs: instance_evals` on every proof, cast to `ZMod p` (`p` prime, `> 2`), equals the field-level
+expression `Σ_i a_i·ℓ_i(·)` of `instance_eval_binds`, with `nF = N = 2^k`, nodes `ω^i`, at `ω^rot·x` for a query at
+rotation `rot`. The link between the two, formerly "by correspondence", is this theorem. -/
+theorem instance_evals_exec_is_inst_eval (f : C02.Ids.Fld) [Fact f.p.Prime] (hp2 : 2 < f.p) (cs : C02.Ids.VCS)
+    (hω : IsPrimitiveRoot (C02.Lag.omegaZ f cs.k) (2 ^ cs.k))
+    (nCommitted x maxLen : ℕ) (plain : List (List ℕ)) (cev : ℕ → ℕ)
+    (hx : (x : ZMod f.p) ^ (2 ^ cs.k) ≠ 1) (qi : ℕ) (hqi : qi < cs.instanceQueries.length)
+    (hplain : nCommitted ≤ (cs.instanceQueries[qi]).1)
+    (hlen : (plain.getD ((cs.instanceQueries[qi]).1 - nCommitted) []).length ≤ maxLen)
+    (hln : (plain.getD ((cs.instanceQueries[qi]).1 - nCommitted) []).length ≤ 2 ^ cs.k) :
+    (((C02.Ids.instanceEvals f cs nCommitted x (C02.Ids.xnOf f.p cs.k x) maxLen plain cev).getD qi 0 : ℕ) : ZMod f.p) =
+      instEval (((2 ^ cs.k : ℕ) : ZMod f.p)) (2 ^ cs.k) (fun i => (C02.Lag.omegaZ f cs.k) ^ i)
+        (plain.getD ((cs.instanceQueries[qi]).1 - nCommitted) []).length
+        (fun i => (((plain.getD ((cs.instanceQueries[qi]).1 - nCommitted) []).getD i 0 : ℕ) : ZMod f.p))
+        ((C02.Lag.omegaZ f cs.k) ^ (cs.instanceQueries[qi]).2 * (x : ZMod f.p)) :=
+  instanceEvals_eq_instEval f hp2 cs hω nCommitted x maxLen plain cev hx qi hqi hplain hlen hln
+
+/-- **`instance_eval_binds` at the level of the executable function**: two tables of plain instance columns whose
+column behind query `qi` differs (same length `m`, canonical values) get the same evaluation from
+`C02.instanceEvals` for at most `m − 1` challenges `x < p` off the domain. -/
+theorem instance_eval_binds_exec (f : C02.Ids.Fld) [Fact f.p.Prime] (hp2 : 2 < f.p) (cs : C02.Ids.VCS)
+    (hω : IsPrimitiveRoot (C02.Lag.omegaZ f cs.k) (2 ^ cs.k))
+    (nCommitted maxLen : ℕ) (plainA plainB : List (List ℕ)) (cev : ℕ → ℕ)
+    (qi : ℕ) (hqi : qi < cs.instanceQueries.length) (hplain : nCommitted ≤ (cs.instanceQueries[qi]).1)
+    (colA colB : List ℕ)
+    (hA : plainA.getD ((cs.instanceQueries[qi]).1 - nCommitted) [] = colA)
+    (hB : plainB.getD ((cs.instanceQueries[qi]).1 - nCommitted) [] = colB)
+    (hlenEq : colA.length = colB.length) (hlen : colA.length ≤ maxLen) (hln : colA.length ≤ 2 ^ cs.k)
+    (hvA : ∀ v ∈ colA, v < f.p) (hvB : ∀ v ∈ colB, v < f.p) (hne : colA ≠ colB)
+    (S : Finset ℕ)
+    (hS : ∀ x ∈ S, x < f.p ∧ (x : ZMod f.p) ^ (2 ^ cs.k) ≠ 1 ∧
+      (C02.Ids.instanceEvals f cs nCommitted x (C02.Ids.xnOf f.p cs.k x) maxLen plainA cev).getD qi 0
+        = (C02.Ids.instanceEvals f cs nCommitted x (C02.Ids.xnOf f.p cs.k x) maxLen plainB cev).getD qi 0) :
+    S.card ≤ colA.length - 1 :=
+  instanceEvals_binds f hp2 cs hω nCommitted maxLen plainA plainB cev qi hqi hplain colA colB hA hB hlenEq hlen hln
+    hvA hvB hne S hS
+
+/-! ## (9) What `transcript_repr` covers of the constraint system, and the one field it does not -/
+
+/-- The order of the printed fields as the source has it TODAY, for both cases of the `num_challenges > 0` test. -/
+theorem csDebugFieldNames_eq (nch : Nat) :
+    csDebugFieldNames nch = if 0 < nch then
+        ["num_fixed_columns", "num_advice_columns", "num_instance_columns", "num_selectors", "num_challenges",
+          "advice_column_phase", "challenge_phase", "gates", "advice_queries", "instance_queries", "fixed_queries",
+          "permutation", "lookups", "trashcans", "constants", "minimum_degree"]
+      else
+        ["num_fixed_columns", "num_advice_columns", "num_instance_columns", "num_selectors", "gates",
+          "advice_queries", "instance_queries", "fixed_queries", "permutation", "lookups", "trashcans", "constants",
+          "minimum_degree"] := by
+  by_cases h : 0 < nch <;> simp [csDebugFieldNames, Gen.csDebugOrder, h]
+
+private theorem aq_eq {a b : CSView}
+    (h : (a.adviceQueries.map fun q => (q.1, shownPhase (a.advicePhase.getD q.1 0), q.2))
+       = (b.adviceQueries.map fun q => (q.1, shownPhase (b.advicePhase.getD q.1 0), q.2))) :
+    a.adviceQueries = b.adviceQueries ∧
+    ∀ q ∈ a.adviceQueries, shownPhase (a.advicePhase.getD q.1 0) = shownPhase (b.advicePhase.getD q.1 0) := by
+  have h1 := congrArg (List.map fun t : Nat × Option Nat × Int => (t.1, t.2.2)) h
+  simp only [List.map_map, Function.comp_def, Prod.mk.eta, List.map_id'] at h1
+  refine ⟨h1, ?_⟩
+  rw [← h1] at h
+  intro q hq
+  have := (List.map_inj_left.mp h) q hq
+  simpa using this
+
+/-- **`vk_repr_injective_on_verifier_view` (partial — with the exact exception).** The `cs` component of the buffer
+hashed into `transcript_repr` is a function of `pinnedFields` (the (name, value) pairs `Debug for
+PinnedConstraintSystem` prints, in the order regenerated from the source). Two constraint systems with the same
+`pinnedFields` agree on EVERY member of `PinnedConstraintSystem` except possibly `advice_column_phase`; they agree on
+`advice_column_phase` too as soon as there is a challenge; without a challenge they still agree on what
+`Debug for Advice` shows of the phase of every QUERIED advice column. What is left uncovered is exactly: the phase
+of an advice column that no gate / lookup / copy constraint queries, in a circuit without challenges — a field the
+verifier does read (`parse_trace` reads the advice commitments phase by phase: `adviceReadOrder`). PARTIAL in this
+respect (exhibited on the real code by the harness, finding `vk-component-not-in-repr:advice-phase-unqueried`), and
+in that the injectivity of the `Debug` rendering of the individual values is not modelled. -/
+theorem vk_repr_injective_on_verifier_view_partial (a b : CSView) (h : pinnedFields a = pinnedFields b) :
+    a = { b with advicePhase := a.advicePhase } ∧
+    (∀ q ∈ a.adviceQueries, shownPhase (a.advicePhase.getD q.1 0) = shownPhase (b.advicePhase.getD q.1 0)) ∧
+    (0 < a.challengePhase.length → verifierView a = verifierView b) := by
+  unfold pinnedFields at h
+  rw [csDebugFieldNames_eq, csDebugFieldNames_eq] at h
+  by_cases ha : 0 < a.challengePhase.length <;> by_cases hb : 0 < b.challengePhase.length
+  · simp only [ha, hb, if_true, List.map_cons, List.map_nil, fieldValue, List.cons.injEq, Prod.mk.injEq, true_and,
+      Option.some.injEq, FieldVal.nat.injEq, FieldVal.nats.injEq, FieldVal.str.injEq, FieldVal.aq.injEq, and_true] at h
+    obtain ⟨h1, h2, h3, h4, _, h6, h7, h8, h9, h10, h11, h12, h13, h14, h15, h16⟩ := h
+    obtain ⟨hq, hph⟩ := aq_eq h9
+    refine ⟨?_, hph, fun _ => ?_⟩
+    · cases a; cases b; simp_all
+    · unfold verifierView; cases a; cases b; simp_all
+  · exfalso
+    simp only [ha, hb, if_true, if_false, List.map_cons, List.map_nil] at h
+    have := congrArg List.length h
+    simp at this
+  · exfalso
+    simp only [ha, hb, if_true, if_false, List.map_cons, List.map_nil] at h
+    have := congrArg List.length h
+    simp at this
+  · simp only [ha, hb, if_false, List.map_cons, List.map_nil, fieldValue, List.cons.injEq, Prod.mk.injEq, true_and,
+      Option.some.injEq, FieldVal.nat.injEq, FieldVal.str.injEq, FieldVal.aq.injEq, and_true] at h
+    obtain ⟨h1, h2, h3, h4, h8, h9, h10, h11, h12, h13, h14, h15, h16⟩ := h
+    obtain ⟨hq, hph⟩ := aq_eq h9
+    have ea : a.challengePhase = [] := List.eq_nil_of_length_eq_zero (by omega)
+    have eb : b.challengePhase = [] := List.eq_nil_of_length_eq_zero (by omega)
+    refine ⟨?_, hph, fun hpos => absurd hpos ha⟩
+    cases a; cases b; simp_all
+
+/-- **The gap is real (model side).** Two constraint systems — the shape of the harness's `MiniCircuit` with its
+unqueried advice column `u` in the second resp. first phase, no challenge — have the same `pinnedFields` (hence the
+same `transcript_repr` input), but their verifiers read the advice commitments in different orders, and the
+Fiat–Shamir schedules of C01 differ. The harness observes the same on the real code: equal `transcript_repr`, equal
+`Debug` strings, different `advice_column_phase`. -/
+theorem vk_repr_gap_exhibited :
+    let a : CSView := ⟨1, 3, 2, 1, [0, 1, 0], [], [(0, 0), (2, 0)], "g", "i", "f", "p", "l", "t", "c", "m"⟩
+    let b : CSView := { a with advicePhase := [0, 0, 0] }
+    pinnedFields a = pinnedFields b ∧ verifierView a ≠ verifierView b ∧
+    adviceReadOrder a.advicePhase = [0, 2, 1] ∧ adviceReadOrder b.advicePhase = [0, 1, 2] ∧
+    let sh (ap : List Nat) : Shape := ⟨ap, [], [(0, 0), (2, 0)], [(0, 0), (1, 0)], [(0, 0)], 0, 0, 4, 3, 5, 4⟩
+    verifierSchedule (sh [0, 1, 0]) ⟨1, 0, [[1, 1]]⟩ ≠ verifierSchedule (sh [0, 0, 0]) ⟨1, 0, [[1, 1]]⟩ := by
+  decide
+
+/-- With at least one challenge nothing is left out: equal printed fields give equal constraint-system views
+(non-vacuity of the last clause of `vk_repr_injective_on_verifier_view_partial`). -/
+example : let a : CSView := ⟨1, 2, 1, 1, [0, 1], [0], [(0, 0)], "g", "i", "f", "p", "l", "t", "c", "m"⟩
+    0 < a.challengePhase.length ∧ pinnedFields a = pinnedFields a := by decide
 
 end MidnightZK.C03
